@@ -60,6 +60,17 @@ def residual(ex, crit, gamma, u, y0, mu):
 
 
 def monitor(op_line, out_line, st):
+    try:
+        return monitor_(op_line, out_line, st)
+    except OverflowError:
+        # exact values beyond the range of doubles (diverging run, astronomically scaled data): nothing to
+        # compare in binary64 — unless the solver claims convergence there
+        if ' Converged ' in out_line.split(' ; ')[0]:
+            return 'Converged on a run whose exact quantities overflow binary64'
+        return None
+
+
+def monitor_(op_line, out_line, st):
     if out_line.startswith('exception') or out_line in ('bad-op',):
         return f'harness: {out_line[:120]}'
     op = L.Op.parse(op_line)
@@ -223,6 +234,21 @@ def probes(rep, broken, exe, tier):
              f'J2 {tot} stop-injected runs, {bad} inconsistent')
 
 
+def replay(rec):
+    """checks/replay.py hook: re-run a recorded op through the real solver and the monitors."""
+    exe, log = L.build_harness()
+    if not exe:
+        print(log[-1500:]); return 2
+    op = rec.get('payload', {}).get('op')
+    if not op:
+        print('no op in this replay file'); return 0
+    out, rc, err = C.run_lines(exe, [op])
+    m = monitor(op, out[0], {}) if out else f'harness crashed rc={rc} {err[-300:]}'
+    print('impl:', L.strip_events(out[0])[:1500] if out else None)
+    print('monitor:', m)
+    return 1 if m else 0
+
+
 def main(argv, pid='C13'):
     exe, log = L.build_harness()
     tier = C.tier_from_argv(argv)
@@ -230,6 +256,7 @@ def main(argv, pid='C13'):
     def gen_ops(rng, n):
         ops = [L.gen_run(rng).line() for _ in range(n)]
         if exe:
+            ops += L.tie_ops(rng, exe, 12 if tier == 'quick' else 100)
             ops += L.sweep_ops(rng, exe, 3 if tier == 'quick' else 20)
         return ops
 
@@ -237,7 +264,7 @@ def main(argv, pid='C13'):
         pid, argv,
         gen_scripts=L.GEN_SCRIPTS,
         modules=L.MODULES, driver=L.DRIVER,
-        extra_sources=L.EXTRA_SOURCES + ['Alpaqa/Proofs/OcpLoop.lean', 'Alpaqa/Proofs/OcpLs.lean'],
+        extra_sources=L.EXTRA_SOURCES,
         harness_name='solvers_ocp', harness_sources=[], harness_builder=lambda: (exe, log),
         gen_ops=gen_ops, monitor=monitor, nontrivial=nontrivial,
         driver_input=L.driver_input, impl_view=L.strip_events,
